@@ -118,7 +118,7 @@ OPT_ASSUME = ['the Go compiler (through ordinary selectors, unsafe.Sizeof and ad
               'struct shapes are those of the generator grammar in lib/optgen.py; func-typed fields and NaN values are not generated',
               'checkptr (and ASan in the thorough tier) are secondary oracles; intra-object wrong offsets are caught by the byte-level neighbour monitor only']
 for _p in ('C01', 'C02', 'C03', 'C04'):
-    prop(_p, harness='optgen', subpkg=_p.lower(), modes=OPT_MODES, batches={'quick': 4, 'thorough': 8}, floor=100, prepare=prep_optgen, assumptions=OPT_ASSUME, wd={'quick': 900, 'thorough': 7200})
+    prop(_p, harness='optgen', subpkg=_p.lower(), modes=OPT_MODES, env={'GODEBUG': 'gccheckmark=1,clobberfree=1'}, batches={'quick': 4, 'thorough': 8}, floor=100, prepare=prep_optgen, assumptions=OPT_ASSUME, wd={'quick': 900, 'thorough': 7200})
 
 # ---------------------------------------------------------------------------
 
@@ -286,6 +286,8 @@ def run_child(ctx, pid, binary, kind, mode, tier, seed, batch, nbatch, wd, extra
             env['VERIF_RESUME_AFTER'] = resume
         if extra_env:
             env.update(extra_env)
+        if PROPS[pid].get('env'):
+            env.update(PROPS[pid]['env'])
         if PROPS[pid].get('procs'):
             pr = PROPS[pid]['procs']
             env['GOMAXPROCS'] = str(pr[batch % len(pr)])
